@@ -995,6 +995,23 @@ def eval_pair(acc, st, cfg, ia, ib, gitres, k):
     sts = sorted({gt.status(o, n) for p, o, n in recs0})
     acc.outcome("P:statuses:" + ("".join(sts) if sts else "identical"))
 
+    # ---- census of the two situations the twins / dupsrc families exist for (vacuity guard, any family)
+    both = {}
+    for p, i in ia.dirs.items():
+        if p and p in ib.dirs:
+            both[(i, ib.dirs[p])] = both.get((i, ib.dirs[p]), 0) + 1
+    if any(c > 1 and k[0] != k[1] for k, c in both.items()):
+        acc.outcome("P:twin-directories:same-old-and-same-new-subtree-at-several-paths")
+    if any(c > 1 and k[0] == k[1] for k, c in both.items()):
+        acc.outcome("P:twin-directories:same-unchanged-subtree-at-several-paths")
+    by_id = {}
+    for p, (m, i) in ia.fa.items():
+        by_id.setdefault(i, []).append(p)
+    for i, srcs in by_id.items():
+        if len(srcs) > 1 and sum(1 for p, (m2, i2) in ib.fa.items() if i2 == i and p not in ia.fa) > 1:
+            kinds = sorted({"deleted" if p not in ib.fa else "kept" if ib.fa[p] == ia.fa[p] else "modified" for p in srcs})
+            acc.outcome("P:duplicate-sources-with-2+-new-copies:" + "+".join(kinds))
+
     # ---- rename detection
     for variant, it, wu in cfg["rd"]:
         flags = flagstr(impl, wu, it, rd=variant)
